@@ -91,6 +91,7 @@ type funcRun struct {
 	entryAlloc Term
 	isInit bool
 	tokenWg Term
+	entryHeld Term
 }
 
 type siteInfo struct {
